@@ -319,7 +319,25 @@ class Ref:
         return UNK, "N" if m.startswith("assert") else "?"
 
     def run(self, instrs):
+        """guarded regions (`genter rK` ... `gleave`): inside a region whose condition is not the value 1 nothing is
+        specified (the region is dead: its values are dummies), so every register computed there is `?`"""
+        dead = []
         for ins in instrs:
+            if ins and ins[0] == "genter":
+                try:
+                    c = self.regs[int(ins[1][1:])]
+                    dead.append(not (c[0] == "I" and c[1] == 1))
+                except Exception:
+                    dead.append(True)
+                self.regs.append(("N",)); self.kinds.append("N")
+                continue
+            if ins and ins[0] == "gleave":
+                if dead: dead.pop()
+                self.regs.append(("N",)); self.kinds.append("N")
+                continue
+            if any(dead):
+                self.regs.append(UNK); self.kinds.append("?")
+                continue
             try:
                 v, k = self.step(ins)
             except Exception:
